@@ -5,6 +5,7 @@ import (
 	"math/rand"
 	"os"
 	"path/filepath"
+	"sort"
 	"strings"
 
 	"verif/internal/gitx"
@@ -122,6 +123,54 @@ func scenarios() []scen {
 		p.op.Kind, p.op.Path, p.op.Glob = "addopts", p.edits[0].Path, "*"
 	}))
 	add("addglob", "no-match", simple([]string{"unstaged-mod", "untracked"}, nil, nil, func(p *plan) { p.op.Kind, p.op.Glob = "addglob", "*.nomatch" }))
+	// a directory add that fails part-way: several modified files plus one tracked file replaced by a directory
+	partial := func(mk func(p *plan, d string)) func(r *rand.Rand, b *wtlab.Base, n int) (plan, bool) {
+		return func(r *rand.Rand, b *wtlab.Base, n int) (plan, bool) {
+			nn := len(b.IDs)
+			for _, cur := range r.Perm(nn) {
+				byDir := map[string][]string{}
+				t := b.Tree(cur)
+				for _, pth := range t.Paths() {
+					if f := t[pth]; f.Mode != "100644" && f.Mode != "100755" {
+						continue
+					}
+					d := "."
+					if i := strings.LastIndex(pth, "/"); i > 0 {
+						d = pth[:i]
+					}
+					byDir[d] = append(byDir[d], pth)
+				}
+				var dirs []string
+				for d, fs := range byDir {
+					if len(fs) >= 2 {
+						dirs = append(dirs, d)
+					}
+				}
+				if len(dirs) == 0 {
+					continue
+				}
+				sort.Strings(dirs)
+				d := dirs[r.Intn(len(dirs))]
+				fs := byDir[d]
+				p := plan{cur: cur, tgt: (cur + 1) % nn}
+				bad := r.Intn(len(fs))
+				for i, pth := range fs {
+					kind := "unstaged-mod"
+					if i == bad {
+						kind = "unstaged-to-emptydir"
+					}
+					p.edits = append(p.edits, wtlab.Edit{Kind: kind, Path: pth, Rel: "n/a", N: n*8 + i})
+				}
+				mk(&p, d)
+				return p, true
+			}
+			return plan{}, false
+		}
+	}
+	add("add-dir", "partial-failure", partial(func(p *plan, d string) { p.op.Kind, p.op.Path = "add", d }))
+	add("add-all", "partial-failure", partial(func(p *plan, d string) { p.op.Kind, p.op.All = "addopts", true }))
+	add("addopts-dir", "partial-failure", partial(func(p *plan, d string) { p.op.Kind, p.op.Path = "addopts", d }))
+	add("commit-all", "partial-failure", partial(func(p *plan, d string) { p.op.Kind, p.op.All = "commit", true }))
 	// ---- commit
 	add("commit", "nothing-to-commit", simple(nil, nil, nil, func(p *plan) {
 		p.op.Kind = "commit"
@@ -189,7 +238,8 @@ func runRefusals(c *vf.Ctx, g *gitx.Git, bases []*wtlab.Base, only string) {
 	vf.Parallel(len(cases), 8, func(i int) { runRefusalCase(c, g, bases, cases[i]) })
 	if only == "" {
 		c.Floor("refusal cases in which the call returned an error", c.Counter("refused_calls"), c.N(150, 900))
-		c.Floor("distinct (operation, cause) pairs refused", c.SeenCount("refused_scenarios"), 40)
+		c.Floor("distinct (operation, cause) pairs refused", c.SeenCount("refused_scenarios"), 42)
+		c.Floor("refused calls compared through the same Repository object", c.Counter("inproc_comparisons"), c.N(80, 500))
 		c.Floor("refused calls that left the state unchanged", c.Counter("refused_unchanged"), c.N(80, 500))
 	}
 }
@@ -207,7 +257,6 @@ func runRefusalCase(c *vf.Ctx, g *gitx.Git, bases []*wtlab.Base, k caseT) {
 		c.Broken("resolve ids case %d: %v", k.I, err)
 		return
 	}
-	preFast := fastState(dir)
 	var rec *recfs.Rec
 	if k.Wrapped {
 		rec = recfs.New()
@@ -217,8 +266,38 @@ func runRefusalCase(c *vf.Ctx, g *gitx.Git, bases []*wtlab.Base, k caseT) {
 		c.Broken("case %d: open: %v", k.I, err)
 		return
 	}
+	// What the Repository itself reports before the call, in three ways:
+	//   cold  - read through a separate Repository; the refused call is the first index access of `repo`
+	//   warm  - read through `repo` itself (its caches are filled)
+	//   stale - `repo` has read the index, then the git binary rewrites .git/index (git add of a new file)
+	variant := []string{"cold", "warm", "stale"}[k.I%3]
+	var preIn inproc
+	switch variant {
+	case "warm":
+		preIn = observeInproc(repo, dir)
+	case "stale":
+		observeInproc(repo, dir)
+		os.WriteFile(filepath.Join(dir, "zz-external-add.txt"), []byte("added by git while the repository is open\n"), 0o644)
+		if res := g.Run(dir, "add", "zz-external-add.txt"); !res.OK() {
+			c.Broken("case %d: external git add: %s", k.I, res)
+			repo.Close()
+			return
+		}
+		fallthrough
+	default:
+		if preIn, err = inprocFresh(dir); err != nil {
+			c.Broken("case %d: open for observation: %v", k.I, err)
+			repo.Close()
+			return
+		}
+	}
+	preFast := fastState(dir)
 	var opErr error
 	p, stack := vf.Catch(func() { opErr = execOp(repo, k.Op, res) })
+	var postIn inproc
+	if p == nil && opErr != nil {
+		postIn = observeInproc(repo, dir)
+	}
 	repo.Close()
 	if p != nil {
 		c.Fail("panic:"+k.Label+":"+k.Cause, fmt.Sprintf("%s (%s) panicked: %v\n%s", k.Label, k.Cause, p, stack), k)
@@ -243,6 +322,13 @@ func runRefusalCase(c *vf.Ctx, g *gitx.Git, bases []*wtlab.Base, k caseT) {
 			c.Broken("materialize twin of refusal case %d: %v", k.I, err)
 			return
 		}
+		if variant == "stale" {
+			os.WriteFile(filepath.Join(twin, "zz-external-add.txt"), []byte("added by git while the repository is open\n"), 0o644)
+			if res := g.Run(twin, "add", "zz-external-add.txt"); !res.OK() {
+				c.Broken("case %d: external git add on twin: %s", k.I, res)
+				return
+			}
+		}
 		tf := fastState(twin)
 		tf[".git/index"] = preFast[".git/index"] // the index embeds inode numbers and timestamps of the copy
 		if !sameFast(preFast, tf) {
@@ -266,6 +352,15 @@ func runRefusalCase(c *vf.Ctx, g *gitx.Git, bases []*wtlab.Base, k caseT) {
 		c.Sample(map[string]any{"case": k, "error": fmt.Sprint(opErr), "changed": set})
 	}
 	if len(set) == 0 {
+		c.Count("inproc_comparisons", 1)
+		c.Seen("inproc_variants", variant)
+		if iset, idet := diffInproc(preIn, postIn); len(iset) > 0 {
+			c.Fail(name+":"+strings.Join(iset, "+")+":seen-through-same-repository",
+				fmt.Sprintf("%s with state built for %q (%s cache) returned %q; the files on disk are unchanged, but the Repository that made the call now reports a different %s: %s",
+					k.Label, k.Cause, variant, opErr, strings.Join(iset, "+"), strings.Join(idet, "; ")),
+				map[string]any{"case": k, "error": fmt.Sprint(opErr), "variant": variant, "changed": iset, "detail": idet})
+			return
+		}
 		c.Count("refused_unchanged", 1)
 		return
 	}
